@@ -15,7 +15,10 @@ REPO_SRCS = ["src/MDP/Algorithms/Utils/OffPolicyTemplate.cpp", "src/MDP/Utils.cp
              # SARSOP.cpp defines addWit/rmWit/addMax/rmMax; the rest is what it and FastInformedBound need to link
              # (same translation units and flags as props/C03.py: the object cache is shared)
              "src/POMDP/Algorithms/SARSOP.cpp", "src/POMDP/Algorithms/FastInformedBound.cpp", "src/POMDP/Algorithms/BlindStrategies.cpp",
-             "src/POMDP/Utils.cpp", "src/Utils/Polytope.cpp", "src/Utils/Combinatorics.cpp", "src/Utils/LP/LpSolveWrapper.cpp"]
+             "src/POMDP/Utils.cpp", "src/Utils/Polytope.cpp", "src/Utils/Combinatorics.cpp", "src/Utils/LP/LpSolveWrapper.cpp",
+             # rt.cpp: learned models over both experiences; GapMin (reuse histories) and what it links
+             "src/MDP/Experience.cpp", "src/MDP/SparseExperience.cpp", "src/POMDP/Algorithms/GapMin.cpp",
+             "src/POMDP/Algorithms/PBVI.cpp", "src/POMDP/Algorithms/QMDP.cpp", "src/MDP/Algorithms/ValueIteration.cpp"]
 EXTRA_LINK = ["/usr/lib/liblpsolve55.a", "-lcolamd", "-ldl"]
 AXIOM_ALLOW = []
 ASAN_QUICK = True
@@ -29,7 +32,8 @@ RULE = ("own cases (harness/C10, plain + ASan/UBSan): updateTraces histories (S 
         "pre-pruned in 80 %, strong new vectors in 50 %), extractBestUsefulPoints on 0..8 points x 1..5 planes ('ebuempty' = empty plane range), "
         "SARSOP witness/max lists under 0..10 addWit/rmWit/addMax/rmMax, FastInformedBound sparse-reward maximum ('fibmaxz' = with "
         "implicit zeros), FactorGraph histories (n 1..6, <= 12 getFactor/erase ops, 51 fixed shapes), BeliefGenerator on random dyadic "
-        "POMDPs (n in 0..20); non-trivial = a trace cut / both key lists >= 2 keys / a vector removed / > 2 list ops / a factor "
+        "POMDPs (n in 0..20), {Sparse}MaximumLikelihoodModel<{Sparse}Experience> record/sync/reset histories ('mlm', oracle only), one "
+        "SARSOP/GapMin object reused for 2-3 solves ('reuse'); all own cases also run on an ASan+UBSan build WITHOUT -DNDEBUG; non-trivial = a trace cut / both key lists >= 2 keys / a vector removed / > 2 list ops / a factor "
         "re-requested or erased / more than 3 beliefs.  extra phase 1 (sanitizer sweep): corpus + quick-tier cases of every other "
         "claimed property (quick: all of its quick-tier cases, stratified by case kind if more than 2000; thorough: its quick- and "
         "thorough-tier cases) executed on that property's ASan+UBSan harness, one evaluation per case, one 'non-trivial' per "
@@ -233,6 +237,61 @@ def gen_edi(rng):
     toks = ["%d/2" % x if x % 2 else str(x // 2) for v in vecs for x in v]
     return "edi %d %d %d %s" % (n, nold, d, " ".join(toks))
 
+def gen_mlm(rng, pair=None):
+    """record / sync() / sync(s,a) / sync(s,a,s1) / reset histories on the four (model template, experience) pairs.
+       sync(s,a,s1) is only emitted right after its record and only when the row was in sync before (its documented
+       use); pairs are revisited after having been synced with zero counts on some successors (the identity entry,
+       explicit zeros), and the history ends with a full sync so that the final matrix has a definite meaning."""
+    mk, ek = pair or rng.choice([("S", "d"), ("S", "d"), ("S", "s"), ("D", "d"), ("D", "s")])
+    S = rng.randint(1, 4); A = rng.randint(1, 2)
+    ops = []; hot = [(rng.randrange(S), rng.randrange(A)) for _ in range(2)]
+    # row state: "init" (identity, never visited), "clean" (equals the empirical frequencies), "dirty".  sync(s,a) is a
+    # no-op while the pair has no visits (e.g. after Experience::reset()), so it only cleans rows with visits;
+    # sync(s,a,s1) is documented for rows that need exactly this one new transition: only on init / clean rows.
+    state = {(s, a): "init" for s in range(S) for a in range(A)}
+    vsum = {k: 0 for k in state}
+    def full_sync(k):
+        if vsum[k] > 0: state[k] = "clean"
+    for _ in range(rng.randint(1, 25)):
+        r = rng.random()
+        if r < 0.7:
+            s, a = rng.choice(hot) if rng.random() < 0.7 else (rng.randrange(S), rng.randrange(A))
+            s1 = rng.randrange(S)
+            ops.append("r %d %d %d %s" % (s, a, s1, Q4(rng.randint(-4, 4))))
+            vsum[(s, a)] += 1
+            t = rng.random()
+            if state[(s, a)] != "dirty" and t < 0.4: ops.append("q %d %d %d" % (s, a, s1)); state[(s, a)] = "clean"
+            elif t < 0.75: ops.append("p %d %d" % (s, a)); full_sync((s, a))
+            else: state[(s, a)] = "dirty"
+        elif r < 0.8:
+            ops.append("y")
+            for k in state: full_sync(k)
+        elif r < 0.95: s, a = rng.randrange(S), rng.randrange(A); ops.append("p %d %d" % (s, a)); full_sync((s, a))
+        elif r < 0.97:
+            ops.append("z")
+            for k in state:
+                vsum[k] = 0
+                if state[k] != "init": state[k] = "dirty"
+    ops.append("y")
+    return "mlm %s %s %d %d %d %s" % (mk, ek, S, A, len(ops), " ".join(ops))
+
+def gen_reuse(rng):
+    def dist(k):
+        c = [0] * k
+        for _ in range(4): c[rng.randrange(k)] += 1
+        return ["%d/4" % x if x % 4 else str(x // 4) for x in c]
+    def pomdp():
+        S = rng.randint(2, 3); A = rng.randint(1, 2); O = rng.randint(1, 2)
+        T = sum((dist(S) for _ in range(A * S)), [])
+        R = [str(rng.randint(0, 4)) for _ in range(S * A)]
+        Ob = sum((dist(O) for _ in range(A * S)), [])
+        b0 = dist(S)
+        return "%d %d %d %s %s %s %s" % (S, A, O, " ".join(T), " ".join(R), " ".join(Ob), " ".join(b0))
+    first = pomdp()
+    ps = [first, first if rng.random() < 0.4 else pomdp()]
+    if rng.random() < 0.3: ps.append(pomdp())
+    return "reuse %s %s %d %s" % (rng.choice(["sarsop", "sarsop", "gapmin"]), rng.choice(["1/2", "1/4", "1"]), len(ps), " ".join(ps))
+
 def gen(rng, tier):
     n = {"quick": 300, "thorough": 2500, "search": 600}[tier]
     cases = []
@@ -259,6 +318,8 @@ def gen(rng, tier):
         cases.append(gen_fibmax(rng, True))
     for _ in range(3): cases.append(gen_ebu(rng, True))
     for _ in range(60 if tier == "quick" else 400): cases.append(gen_edi(rng))     # cheap; many zone-size combinations
+    for _ in range(120 if tier == "quick" else 800): cases.append(gen_mlm(rng))
+    for _ in range(12 if tier == "quick" else 20): cases.append(gen_reuse(rng))
     return cases
 
 # ---------------------------------------------------------------- extra phase 1: sanitizer sweep
@@ -501,6 +562,92 @@ def probe_checks(api):
     api["tags"]["probes_total"] = len(probes); api["tags"]["probe_wall_s"] = int(time.time() - t0)
     return recs
 
+# ---------------------------------------------------------------- extra phase 3: assertions on -----
+# The own harness is built a third time: ASan+UBSan WITHOUT -DNDEBUG, so that Eigen's eigen_assert (e.g. SparseMatrix::
+# insert() on a stored coefficient, operator() out of range) and the library's own assert()s are active; the run's own
+# cases are executed on it.  An abort is reported as clause no_UB, site "noNDEBUG:<case kind>" (container misuse that
+# the release build turns into silent corruption).
+def assertions_on_run(api):
+    import subprocess, glob
+    flags = [f for f in api["CXXFLAGS"] if f != "-DNDEBUG"] + list(api["ASANFLAGS"])
+    srcs = [os.path.join(api["REPO"], x) for x in REPO_SRCS] + sorted(glob.glob(os.path.join(api["ROOT"], "harness", "C10", "*.cpp")))
+    with ThreadPoolExecutor(api["NCPU"]) as ex:
+        res = list(ex.map(lambda x: api["compile_tu"](x, flags, "asan_dbg"), srcs))
+    bad = [e for (o, e) in res if o is None]
+    if bad:
+        return [dict(kind="DISAGREE", clause="assertions_on_build", site="harness/C10", detail=_first_error(bad[0]), case="-")]
+    objs = [o for (o, _) in res]
+    key = hashlib.sha256("\0".join(objs).encode()).hexdigest()[:20]
+    outdir = os.path.join(api["BUILD"], "h", "C10dbg")
+    os.makedirs(outdir, exist_ok=True)
+    exe = os.path.join(outdir, "h_asandbg_" + key)
+    if not os.path.exists(exe):
+        tmp = exe + ".tmp%d" % os.getpid()
+        q = subprocess.run([api["CXX"]] + list(api["ASANFLAGS"]) + objs + list(EXTRA_LINK) + ["-o", tmp],
+                           stdout=subprocess.PIPE, stderr=subprocess.STDOUT, text=True)
+        if q.returncode != 0:
+            return [dict(kind="DISAGREE", clause="assertions_on_build", site="harness/C10", detail=_first_error(q.stdout), case="-")]
+        os.replace(tmp, exe)
+        for old in glob.glob(os.path.join(outdir, "h_asandbg_*")):
+            if old != exe and ".tmp" not in old:
+                try: os.remove(old)
+                except OSError: pass
+    cases = _corpus(api, "C10") + list(gen(random.Random(api["seed"]), api["tier"]))
+    cpath = os.path.join(api["workdir"], "dbg.cases"); opath = os.path.join(api["workdir"], "dbg.out")
+    api["write_cases"](cpath, cases)
+    t0 = time.time()
+    crashes = api["run_harness"](exe, cpath, opath, len(cases), CASE_TIMEOUT * 5)
+    recs = []
+    for (cid, kind, detail) in crashes:
+        case = cases[cid] if 0 <= cid < len(cases) else "?"
+        ck = case.split()[0] if case != "?" else "harness"
+        recs.append(dict(kind="SANITIZER", clause="no_UB", site="noNDEBUG:%s" % ck, detail="%s %s (build without -DNDEBUG: assertions active)" % (kind, detail), case=case))
+    api["evaluations"] += len(cases)
+    api["tags"]["assertions_on_cases"] = len(cases); api["tags"]["assertions_on_s"] = int(time.time() - t0)
+    return recs
+
+# ---------------------------------------------------------------- extra phase 4: every header in two TUs
+# Two translation units that both include EVERY public header are compiled and linked together: a definition in a
+# header that is not inline / template / constexpr (free function, explicit specialisation, namespace-scope variable)
+# shows up as a "multiple definition" link error.  Undefined references are ignored (nothing is used).
+def allheaders_link(api):
+    import subprocess
+    inc = os.path.join(api["REPO"], "include")
+    hs = []
+    for d, _, fs in os.walk(inc):
+        for f in fs:
+            if f.endswith(".hpp") and "Python" not in d:
+                hs.append(os.path.relpath(os.path.join(d, f), inc))
+    hs.sort()
+    body = "".join("#include <%s>\n" % h for h in hs)
+    gdir = os.path.join(api["BUILD"], "probe_gen")
+    os.makedirs(gdir, exist_ok=True)
+    files = {"allheaders_a.cpp": "// generated by props/C10.py: every public header, TU A\n" + body + "int c10_allheaders_a() { return 0; }\n",
+             "allheaders_b.cpp": "// generated by props/C10.py: every public header, TU B\n" + body + "int main() { return 0; }\n"}
+    for name, content in files.items():
+        pth = os.path.join(gdir, name)
+        if not os.path.exists(pth) or open(pth).read() != content:
+            with open(pth, "w") as f: f.write(content)
+    flags = list(api["CXXFLAGS"])
+    t0 = time.time()
+    with ThreadPoolExecutor(2) as ex:
+        res = list(ex.map(lambda n: api["compile_tu"](os.path.join(gdir, n), flags, "probe"), sorted(files)))
+    api["evaluations"] += 1
+    api["tags"]["allheaders"] = len(hs)
+    for (o, e) in res:
+        if o is None:
+            return [dict(kind="DISAGREE", clause="instantiates", site="all_public_headers#compile", detail=_first_error(e), case="allheaders")]
+    exe = os.path.join(api["workdir"], "allheaders_exe")
+    q = subprocess.run([api["CXX"]] + [o for (o, _) in res] + ["-Wl,--unresolved-symbols=ignore-all", "-o", exe],
+                       stdout=subprocess.PIPE, stderr=subprocess.STDOUT, text=True)
+    api["tags"]["allheaders_s"] = int(time.time() - t0)
+    if q.returncode != 0:
+        m = [l for l in q.stdout.split("\n") if "multiple definition" in l]
+        msg = re.sub(r"\s+", " ", (m[0] if m else q.stdout[:300]).strip())[:300]
+        return [dict(kind="DISAGREE", clause="instantiates", site="all_public_headers#link", detail=msg, case="allheaders (%d multiple definitions)" % len(m))]
+    api["nontrivial"] += 1
+    return []
+
 def extra_checks(api):
     recs = []
     # C10_NO_SWEEP=1: skip the sweep (for experiments with VERIF_REPO=<scratch worktree>: building the other
@@ -510,6 +657,9 @@ def extra_checks(api):
         recs += sanitizer_sweep(api)
     if os.environ.get("C10_NO_PROBES") != "1":
         recs += probe_checks(api)
+        recs += allheaders_link(api)
+    if os.environ.get("C10_NO_ASSERT") != "1":
+        recs += assertions_on_run(api)
     return recs
 
 
